@@ -639,7 +639,7 @@ Proof.
   - rewrite (move_l_cons (T s n v ks) todo' dcur), Emt. cbn [fst snd].
     assert (Eapp : forall X : forest, kept ++ T s n v ks' :: X = (kept ++ [T s n v ks']) ++ X)
       by (intros X; rewrite <- app_assoc; reflexivity).
-    rewrite !Eapp. rewrite Eapp in S1.
+    rewrite (Eapp (fst (fst (move_l todo' (d1 ++ T c nj w kd' :: d2))))). rewrite (Eapp todo') in S1.
     exists h2, from2. split; [rewrite E2; f_equal; f_equal; lia|]. split; [|exact Hfr2].
     exact (stepr_trans _ _ _ _ _ _ S1 S2).
 Qed.
